@@ -29,6 +29,32 @@ THEOREMS = {
     "C01_superset_stable": "a screen's own mappings are accepted back unchanged on any rows they cover",
     "C01_treatment_ids_bounded": "every treatment id < ExperimentSpace.n_unique_treatments",
     "C01_sample_ids_bounded": "every sample id < n_unique_samples", "C01_sample_ids_bounded_supplied": "same with a key-unique supplied mapping",
+    "C01_control_test_from_source": "is_control = (round-1 constant: the comparison operator of dose_is_zero read from the source) || name == control name",
+    "C01_model_is_source_numpy_array_is_0_indexed_integers": "the translation of the WHOLE function numpy_array_is_0_indexed_integers (dtype test, "
+        "sentinel membership, the two comparisons against arange), regenerated from the source on every run, equals Ok (zero_indexed isint ids) for "
+        "every id array",
+    "C01_model_is_source_encode_treatment_arrays": "the translation of the WHOLE function encode_treatment_arrays_to_0_indexed_ids (the pandas "
+        "pipeline, one primitive per call) equals, for all arguments: Err 15 when the arrays / the supplied mapping's arrays differ in length "
+        "(pandas' ValueError), else encode_treatments on the zipped keys, returning (ids all non-NaN, the mapping's three columns); hypothesis: a "
+        "supplied mapping is key-unique",
+    "C01_model_is_source_assign": "the else branch of that function (drop_duplicates, sort_values by name then dose, reset_index, dose <= 0, name == "
+        "control, |, cumsum, index - cumsum, sentinel override by label AFTER the subtraction, the two dels) builds exactly build_tmapping",
+    "C01_model_is_source_dose_test_consistent": "the round-1 constant src_dose_is_control is the comparison the translation applies to the dose "
+        "column (redundant now, consistent)",
+    "C01_model_is_source_encode_1d_array": "the translation of the WHOLE function encode_1d_array_to_0_indexed_ids equals encode_names (tag 6) for all "
+        "arguments; hypothesis: a supplied mapping is key-unique",
+    "C01_model_is_source_init_control_name": "the translated first statement of Screen.__init__ stores the parameter control_treatment_name",
+    "C01_model_is_source_init_ids": "the translated id-encoding statements of Screen.__init__ (column-major flatten for any arity, validation of "
+        "both supplied mappings, the three encoder calls with their existing_mapping arguments, split / vstack / T, the six stores), run on the "
+        "arrays of a constructor call, equal the id part of mk_screen read back by stored_ids, after mk_screen's arity and per-plate checks; "
+        "hypotheses: arity > 0, supplied mappings key-unique",
+    "C01_model_is_source_n_unique_samples": "the translated property ExperimentSpace.n_unique_samples on the sample-mapping tuple a constructed "
+        "screen stores = space_n_samples",
+    "C01_model_is_source_n_unique_treatments": "the translated property ExperimentSpace.n_unique_treatments (np.unique of np.setdiff1d(ids, "
+        "[sentinel])) on the stored treatment-mapping tuple = space_n_treatments",
+    "C01_model_is_source_init": "mk_screen (for whatever the call passes) = refuse ragged rows; the two translated observation-mask runs of "
+        "Screen.__init__ (C12 link); then the translated id run on the rows they leave - the constructor model tied to the source statement "
+        "by statement; same hypotheses",
 }
 ASSUMPTIONS = [
     "doses cross the wire as order keys (common.float_key): an order isomorphism on finite doubles identifying -0.0 and 0.0, "
@@ -37,7 +63,39 @@ ASSUMPTIONS = [
     "pandas drop_duplicates/sort_values/merge(how=left) are modelled by their documented effect; supplied mappings are key-unique",
 ]
 EXPLANATION = ("Model: Model/Encode.v + Model/Screen.v (mk_screen). Compared exactly: treatment_ids, sample_ids, plate_ids, the three "
-               "mappings in stored order, ExperimentSpace sizes, or error-ness.")
+               "mappings in stored order, ExperimentSpace sizes, or error-ness.  "
+               "SOURCE LINK (C01_model_is_source_*): numpy_array_is_0_indexed_integers, encode_treatment_arrays_to_0_indexed_ids, "
+               "encode_1d_array_to_0_indexed_ids (whole functions) two statement runs of Screen.__init__ (the first statement; the id-encoding "
+               "statements from `treatment_arity = ...` to `self._plate_mapping = ...`) and the properties ExperimentSpace.n_unique_samples / "
+               "n_unique_treatments are re-translated from the source on every run by "
+               "harness/py2gal.py (configurations C01_* in harness/src_functions.py, output coq/theories/Generated/SrcEncode.v and SrcScreenIds.v) "
+               "and proved equal to the model for all inputs (Proofs/C01Source.v, C01SourceInit.v).  Hypotheses of the links: a supplied mapping is "
+               "key-unique (every mapping batchie builds is; with a repeated key pandas' merge duplicates rows where the model takes the first "
+               "match), and for the constructor run arity > 0 (for treatment arrays of shape (n, 0) numpy's concatenate raises where the model "
+               "builds a screen without treatments: the model is more permissive there, the harness generates arity 1-3).  "
+               "The link TRUSTS the translator and exactly these primitives (meanings: end of Model/Encode.v and Model/Screen.v), ONE numpy / "
+               "pandas call each.  numpy (a 1-d array = the list of its values; an id array also carries 'integer dtype'): "
+               "np.issubdtype(a.dtype, int); `x in a`; np.unique(a) (sorted distinct values); np.sort; a.shape[0]; np.arange(n); np.array(list); "
+               "np.concatenate([a, b]) and np.concatenate(list) (ValueError for no array); a == b (elementwise, equal shapes); np.all; "
+               "the constant CONTROL_SENTINEL_VALUE (read from common.py); a.shape[1] and a[:, i] of a 2-d array = (shape[1], rows) (IndexError "
+               "outside the columns); tuple projections m[0], m[1], m[2], m[-1], x[0], x[1]; np.split(a, n) (n equal parts, else ValueError); "
+               "np.vstack (the arrays become rows, ValueError for none / unequal lengths); a.T; np.setdiff1d(a, b) (sorted distinct values of a not in "
+               "b); a.size.  pandas (a DataFrame = the list of its rows in "
+               "order, each with its index label, typed by its column set; a Series = the list of its values, Series operators and column "
+               "assignment positional): `with pandas.option_context('mode.copy_on_write', True)` changes no value; pandas.DataFrame({...}) from "
+               "two / three / one arrays (fresh RangeIndex; ValueError when lengths differ); drop_duplicates() (keep the first of equal rows, "
+               "labels kept); sort_values(by=['name', 'dose']) / (by='val') (ascending by those keys; name order = code points, doses = order "
+               "keys); reset_index(drop=True) (relabel 0..n-1); reset_index(drop=False) (old labels become column 'index'); d['dose'], d['name'], "
+               "d.is_control, d.index, d.new_index, d.name, d.dose, d.val (column reads); s <= 0 (the ONE float comparison: dose <= 0 iff key <= 0); "
+               "s == control_treatment_name; a | b; s.cumsum() on booleans (inclusive running count); Index - Series; Index[boolean Series]; "
+               "d['is_control'] = s and d['new_index'] = s (append a column); d.loc[labels, 'new_index'] = v (rows whose LABEL is in labels); "
+               "del d['index'], del d['is_control']; rename(columns={'index': 'new_index'}); l.merge(r, on=keys, how='left') (for each row of l in "
+               "order one row per matching row of r, or one row with NaN); s.notna(); s.values / s.to_numpy() (the column's values).  Everything "
+               "else - which column is compared with what, that the override follows the subtraction, that a supplied mapping replaces the whole "
+               "computed table, that a failed merge raises, the loop over range(arity), which existing_mapping each encoder call receives, the "
+               "validation raises - is read from the source by the translation.  The three callee names inside Screen.__init__ run their own "
+               "translations.  Statements of Screen.__init__ outside the translated runs (shape / dtype checks of the other arrays, the plain "
+               "attribute stores at the end) are not covered.")
 
 
 def _pred_screen(d, s):
